@@ -216,6 +216,33 @@ static std::string handle(const std::vector<std::string>& a) {
     char* exact = new char[n ? n : 1];
     memcpy(exact, input.data(), n);
     RUN("ptrsize", (const char*)exact, n)
+    {
+      // the destination is a MEMBER of a document that holds other values, and an ELEMENT of a document that suffered an
+      // allocation failure earlier (overflowed() still set) but has memory again: same code, same value, rest untouched
+      JsonDocument host;
+      host["before"] = "kept"; host["m"]["old"] = 1; host["after"][0] = 2;
+      DeserializationError e1 = json ? (filtered ? deserializeJson(host["m"], (const char*)exact, n, NL, FL) : deserializeJson(host["m"], (const char*)exact, n, NL))
+                                     : (filtered ? deserializeMsgPack(host["m"], (const char*)exact, n, NL, FL) : deserializeMsgPack(host["m"], (const char*)exact, n, NL));
+      // (reported from the value in place: copying it would merge repeated keys)
+      auto reportValue = [&](const char* kind, DeserializationError err, JsonVariantConst v) {
+        std::string d1 = dump(v);
+        std::string js; serializeJson(v, js);
+        if (measureJson(v) != js.size()) d1 += "!MEASURE";
+        res += std::string(kind) + "=" + codeName(err) + ":" + d1 + " ";
+      };
+      bool kept = host["before"] == "kept" && host["after"][0] == 2 && host.size() == 3;
+      reportValue(kept ? "member" : "member!SIBLINGS-CHANGED", e1, host["m"]);
+      SpyAllocator spy; spy.fail_from = 0;
+      JsonDocument host2(&spy);
+      host2.add(std::string("this allocation fails"));
+      bool flagged = host2.overflowed();
+      spy.fail_from = -1;
+      host2.add(1);
+      JsonVariant el = host2.add<JsonVariant>();
+      DeserializationError e2 = json ? (filtered ? deserializeJson(el, (const char*)exact, n, FL, NL) : deserializeJson(el, (const char*)exact, n, NL))
+                                     : (filtered ? deserializeMsgPack(el, (const char*)exact, n, FL, NL) : deserializeMsgPack(el, (const char*)exact, n, NL));
+      reportValue(flagged ? "elementAfterOverflow" : "elementAfterOverflow!NOT-FLAGGED", e2, el);
+    }
     if (filtered) {
       // the filter given as a (non-const) JsonDocument that was built through the API, has spare capacity and lives on
       // an allocator that MOVES blocks when they shrink: with ARDUINOJSON_AUTO_SHRINK the Filter constructor shrinks it
